@@ -60,8 +60,11 @@ def expected_tree(chain):
 
 def observed_tree(g):
     nodes, edges = g["nodes"], g["edges"]
-    if "mother" not in nodes:
-        raise Mismatch("C15:no-root", "no node named 'mother'", None, sorted(nodes))
+    heads_ = {h for _, _, h, _ in edges}
+    roots = [n for n in nodes if n not in heads_]
+    if len(roots) != 1:
+        raise Mismatch("C15:no-root", f"expected exactly one node without incoming edge (the mother), found {sorted(roots)[:5]}", None, sorted(nodes)[:10])
+    ROOT = roots[0]
     by_tail = {}
     heads = {}
     for t, port, h, lab in edges:
@@ -79,12 +82,12 @@ def observed_tree(g):
         cells = tuple(body for _, body in nodes[name] if not (body == "" and len(nodes[name]) == 1))
         ports = [p for p, _ in nodes[name]]
         for port, lab, h in by_tail.get(name, []):
-            if name != "mother" and port not in ports:
+            if name != ROOT and port not in ports:
                 raise Mismatch("C15:port", f"edge from {name}:{port} but the node has ports {ports}")
-        children = tuple(sorted(((port if name != "mother" else None, lab, build(h)) for port, lab, h in by_tail.get(name, [])), key=repr))
+        children = tuple(sorted(((port if name != ROOT else None, lab, build(h)) for port, lab, h in by_tail.get(name, [])), key=repr))
         return (cells, children)
 
-    tree = build("mother")
+    tree = build(ROOT)
     extra = set(nodes) - seen
     if extra:
         raise Mismatch("C15:extra-nodes", f"nodes not reachable from the root: {sorted(extra)}")
@@ -150,7 +153,8 @@ def check_case(case, rec):
             raise Mismatch("C15:counts", "one node and one edge per decay line (plus the root)", [1 + nl, nl], [len(g["nodes"]), len(g["edges"])])
         if got != want:
             raise Mismatch("C15:tree", "graph differs from the walk over the chain dictionary", repr(want)[:1500], repr(got)[:1500])
-        ids = [n for n in g["nodes"] if n != "mother"]
+        heads_ = {h for _, _, h, _ in g["edges"]}
+        ids = [n for n in g["nodes"] if n in heads_]
         all_ids += ids
         depth2 = any(isinstance(p, dict) and next(iter(p.values())) for mode in next(iter(ch.values())) for p in mode["fs"])
         multi = any(isinstance(p, dict) and len(next(iter(p.values()))) >= 2 for mode in next(iter(ch.values())) for p in mode["fs"])
